@@ -803,6 +803,8 @@ func c02Matrix(emit c02Emit, thorough bool) {
 		{"declared", "  ? page: int = 1\n  ? q: str\n  ? flag: bool\n  ? ratio: float = 0.5\n  ? tags: str[]\n", `{page: page, q: q, flag: flag, ratio: ratio, tags: tags, query: query}`},
 		{"required", "  ? q: str!\n  ? page: int!\n", `{q: q, page: page}`},
 		{"default-expr", "  ? page: int = 1 + 1\n  ? n: int = -1\n  ? s: str = \"d\"\n  ? b: bool = true\n  ? z: float = 2.0\n", `{page: page, n: n, s: s, b: b, z: z, query: query}`},
+		// constant defaults only (default-expr falls back to the interpreter as a whole once a computed default sends the module there)
+		{"default-literals", "  ? n: int = -1\n  ? s: str = \"d\"\n  ? b: bool = true\n  ? f: bool = false\n  ? z: float = 2.0\n  ? e: str = \"\"\n  ? o: int = 0\n", `{n: n, s: s, b: b, f: f, z: z, e: e, o: o, query: query}`},
 		{"arith", "  ? page: int = 1\n", `page + 1`},
 		{"undeclared-arith", "", `query.b + 1`},
 		{"input-field", "", `input.a`},
